@@ -68,12 +68,15 @@ def prefixOf (a : Addr) (len : Nat) : Nat := a / 2 ^ (32 - len)
 
 def RouteEntry.contains (e : RouteEntry) (a : Addr) : Bool := prefixOf a e.len == prefixOf e.net e.len
 
+/-- among containing entries the longer mask wins; two containing entries of equal length have
+    the same key in the `BTreeMap`, where the later `add` replaced the earlier one -/
 def better (best : Option RouteEntry) (e : RouteEntry) : Option RouteEntry :=
   match best with
   | none => some e
-  | some b => if b.len < e.len then some e else some b
+  | some b => if b.len ≤ e.len then some e else some b
 
-/-- `IpTable::get_recipient`: the most specific entry that contains the address -/
+/-- `IpTable::get_recipient` over the list of `add`s that built the table: the most specific
+    entry that contains the address -/
 def lookup (t : List RouteEntry) (a : Addr) : Option RouteEntry :=
   t.foldl (fun best e => if e.contains a then better best e else best) none
 
